@@ -3,6 +3,7 @@ package checks
 import (
 	"fmt"
 	"math"
+	"strconv"
 	"strings"
 
 	"evylang.dev/evy/pkg/evaluator"
@@ -229,6 +230,75 @@ func c15Signatures(c *core.Ctx) {
 	}
 }
 
+// c15AfterFailure: a handler that ends in an Evy panic leaves nothing of its local scope behind - a
+// user of the Evaluator API who keeps delivering events (pkg/wasm stops at the first failure) finds
+// every later handler in a fresh local scope on the same globals. The expected trace comes from a
+// model of the three handlers below (two globals, parameters of one handler named like them).
+func c15AfterFailure(c *core.Ctx) {
+	r := c.Rng
+	for round := 0; round < 40; round++ {
+		gx, gy := float64(r.Intn(5)), float64(10+r.Intn(5))
+		src := fmt.Sprintf("x := %v\ny := %v\non down x:num y:num\n    print \"down\" x y\n    t := [1 2]\n    z := t[x]\n    print \"in range\" z\nend\non key k:string\n    x = x + 1\n    print \"key\" k x y\nend\non up\n    y = y + x\n    print \"up\" x y\nend\nprint \"top\" x y\n", gx, gy)
+		want := []string{fmt.Sprintf("top %v %v", gx, gy)}
+		var evs []evaluator.Event
+		seq := ""
+		fails := 0
+		for k := 0; k < 4+r.Intn(8); k++ {
+			switch r.Intn(3) {
+			case 0:
+				px, py := float64(pick(r, 0, 1, 2, 5, 7, -3)), float64(r.Intn(50))
+				evs = append(evs, evaluator.Event{Name: "down", Params: []any{px, py}})
+				want = append(want, fmt.Sprintf("down %v %v", px, py))
+				if px == 0 || px == 1 {
+					want = append(want, fmt.Sprintf("in range %v", px+1))
+				} else {
+					want = append(want, "FAILED")
+					fails++
+				}
+				seq += "d"
+			case 1:
+				ks := pick(r, "a", "Enter", "é")
+				evs = append(evs, evaluator.Event{Name: "key", Params: []any{ks}})
+				gx++
+				want = append(want, fmt.Sprintf("key %s %v %v", ks, gx, gy))
+				seq += "k"
+			default:
+				evs = append(evs, evaluator.Event{Name: "up", Params: []any{3.0, 4.0}})
+				gy += gx
+				want = append(want, fmt.Sprintf("up %v %v", gx, gy))
+				seq += "u"
+			}
+		}
+		c.Journal(src)
+		c.Event("sessions_after_failure", 1)
+		c.Event("failed_handlers_followed_by_events", fails)
+		c.Distinct("after-failure|" + seq + fmt.Sprint(gx, gy))
+		o := plat.Run(src, plat.Opts{Events: evs, YieldBudget: 100000, KeepDelivering: true})
+		if o.Class == "gopanic" {
+			c.Violation("handler-program-failed:gopanic", "events after a failed handler: "+firstN(o.GoPanic, 200), src, map[string]any{"events": evs})
+			continue
+		}
+		var got []string
+		for _, e := range o.Events {
+			switch {
+			case strings.HasPrefix(e, "handler-failed:"):
+				got = append(got, "FAILED")
+			case strings.HasPrefix(e, "print "):
+				if t, err := strconv.Unquote(strings.TrimPrefix(e, "print ")); err == nil {
+					got = append(got, strings.TrimSuffix(t, "\n"))
+				} else {
+					got = append(got, e)
+				}
+			default:
+				got = append(got, e)
+			}
+		}
+		if o.Class != "ok" || strings.Join(got, "|") != strings.Join(want, "|") {
+			c.Violation("after-failed-handler", fmt.Sprintf("events %s delivered after Eval, going on after failed handlers: ended %s %q with trace %v, the model of fresh handler scopes on shared globals gives %v", seq, o.Class, firstN(o.ErrText, 100), got, want), src, map[string]any{"events": evs})
+		}
+	}
+}
+
 // c15DuringRun: an event that arrives while the top-level code is still running (delivered from the
 // platform's yield point) finds its handler and runs it once; nothing crashes.
 func c15DuringRun(c *core.Ctx) {
@@ -272,6 +342,7 @@ func c15Run(c *core.Ctx, i int) {
 	if i == 0 {
 		c15Signatures(c)
 		c15DuringRun(c)
+		c15AfterFailure(c)
 	}
 	r := c.Rng
 	c.Event("programs", 1)
